@@ -348,7 +348,7 @@ PAR = {'C09': 4, 'C10': 4, 'C14': 4, 'C15': 8}
 
 
 def post_re():
-    return re.compile(r'<<"MATCHED",\s*(\d+),\s*(\d+)>>')
+    return re.compile(r'<<\s*"MATCHED",\s*(\d+),\s*(\d+)\s*>>', re.S)
 
 
 def validate_uci(path, mode):
